@@ -77,15 +77,24 @@ func verifLE32At(b []byte, off int) uint32 {
 // Whenever GET_JOB is among the packages and a task is queued the reply hands it out and the
 // queue is drained; otherwise the reply is the no-job task and the queue is untouched.
 func H_c04_checkin() {
-	ts, A, _, _ := agent.VerifStateS()
+	ts, A, B, C := agent.VerifStateS()
 	const id = 0x11223344
 	queued := nondet_bool("task-queued")
+	// the task is for the agent that checks in, for its pivot child, or for a grandchild
+	hops := 0
 	msg := map[string]string{}
 	if queued {
-		job, err := A.TaskPrepare(agent.COMMAND_SLEEP, map[string]any{"TaskID": "0000000a", "Arguments": "5;10"}, &msg, "", ts)
+		hops = nondet_choice("task-for-an-agent-this-many-hops-below", 3)
+		T := []*agent.Agent{A, B, C}[hops]
+		if hops == 2 {
+			C.Pivots.Parent = B
+			B.Pivots.Links = append(B.Pivots.Links, C)
+		}
+		job, err := T.TaskPrepare(agent.COMMAND_SLEEP, map[string]any{"TaskID": "0000000a", "Arguments": "5;10"}, &msg, "", ts)
 		verif_assume(err == nil)
 		verif_assume(job != nil)
-		A.AddJobToQueue(*job)
+		T.AddJobToQueue(*job)
+		verif_assert(len(A.JobQueue) == 1, "a task for an agent behind pivots is queued on the first hop")
 	}
 	before := len(A.JobQueue)
 	cbBody := verifBE32(verifBE32(nil, nondet_u32("delay")), nondet_u32("jitter"))
@@ -115,8 +124,12 @@ func H_c04_checkin() {
 	if len(out) >= 12 {
 		cmd := verifLE32At(out, 0)
 		if asked && queued {
-			verif_assert(cmd == agent.COMMAND_SLEEP, "a check-in that asks for jobs while a task is queued is handed that task")
-			verif_assert(verifLE32At(out, 4) == 0xa, "the task handed out is the queued one")
+			if hops == 0 {
+				verif_assert(cmd == agent.COMMAND_SLEEP, "a check-in that asks for jobs while a task is queued is handed that task")
+				verif_assert(verifLE32At(out, 4) == 0xa, "the task handed out is the queued one")
+			} else {
+				verif_assert(cmd == agent.COMMAND_PIVOT, "a check-in of the first hop is handed the wrapped task of an agent behind it")
+			}
 			verif_assert(len(A.JobQueue) == before-1, "a task handed out leaves the queue")
 		} else {
 			verif_assert(cmd == agent.COMMAND_NOJOB, "no job is handed out when nothing is queued or nothing was asked")
